@@ -104,3 +104,155 @@ theorem HV_of_HK_type {T : Types} {v : ValueType} {t : Tree}
     exact hy
 
 end Wac.Elab
+
+namespace Wac.Elab
+open Wac Wac.Spec.Wit Wac.Decode
+
+variable {ρ : Nat → Res}
+
+/-- one used name, on the specification side (the body of the fold in `denoteItem (.use …)`) -/
+def useStep (exports : List (Str × Tree)) (acc : Scope × List (Str × Tree)) (it : Str × Option Str) :
+    Option (Scope × List (Str × Tree)) :=
+  match alGet exports it.1 with
+  | some (.type (.resource r)) =>
+    let local_ := it.2.getD it.1
+    some ({ acc.1 with binds := acc.1.binds ++ [(local_, .res r)] }, acc.2 ++ [(local_, .type (.resource r))])
+  | some (.type t) =>
+    let local_ := it.2.getD it.1
+    some ({ acc.1 with binds := acc.1.binds ++ [(local_, .val t)] }, acc.2 ++ [(local_, .type t)])
+  | _ => none
+
+theorem useStep_res {ex : List (Str × Tree)} {acc : Scope × List (Str × Tree)} {n : Str} {as_ : Option Str} {q : Res}
+    (h : alGet ex n = some (.type (.resource q))) :
+    useStep ex acc (n, as_) =
+      some ({ acc.1 with binds := acc.1.binds ++ [(as_.getD n, .res q)] }, acc.2 ++ [(as_.getD n, .type (.resource q))]) := by
+  simp only [useStep, h]
+
+theorem useStep_val {ex : List (Str × Tree)} {acc : Scope × List (Str × Tree)} {n : Str} {as_ : Option Str} {t : Tree}
+    (hnr : ∀ q, t ≠ .resource q) (h : alGet ex n = some (.type t)) :
+    useStep ex acc (n, as_) =
+      some ({ acc.1 with binds := acc.1.binds ++ [(as_.getD n, .val t)] }, acc.2 ++ [(as_.getD n, .type t)]) := by
+  cases t <;> simp only [useStep, h]
+  exact absurd rfl (hnr _)
+
+theorem useGo_ok (i : Nat) (itf : Interface) :
+    ∀ (items : List (Str × Option Str)) (st st' : St) (uses uses' : List (Str × UsedType))
+      (externs externs' : List (Str × ItemKind)),
+      useType.go i itf st uses externs items = .ok (st', uses', externs') →
+      st'.types = st.types ∧ st'.root = st.root ∧
+      ∀ (ex : List (Str × Tree)) (sc : Scope) (o : List (Str × Tree)) (res : Scope × List (Str × Tree))
+        (accI : List (Str × Tree)),
+        ExpRel ρ st.types itf.exports ex → Sim ρ st.types st.scope sc.binds →
+        ExpRel ρ st.types externs (accI ++ o) → items.foldlM (useStep ex) (sc, o) = some res →
+        Sim ρ st'.types st'.scope res.1.binds ∧ ExpRel ρ st'.types externs' (accI ++ res.2) ∧
+        res.1.next = sc.next := by
+  intro items
+  induction items with
+  | nil =>
+    intro st st' uses uses' externs externs' h
+    simp only [useType.go] at h
+    cases h
+    refine ⟨rfl, rfl, ?_⟩
+    intro ex sc o res accI _ hsim hexp hfold
+    simp only [List.foldlM_nil, Option.pure_def, Option.some.injEq] at hfold
+    subst hfold
+    exact ⟨hsim, hexp, rfl⟩
+  | cons it items ih =>
+    intro st st' uses uses' externs externs' h
+    obtain ⟨n, as_⟩ := it
+    simp only [useType.go] at h
+    -- the shape of a successful step
+    have step : ∃ (t : Ty) (st1 : St),
+        alGet itf.exports n = some (.type t) ∧ ((∃ r, t = .resource r) ∨ (∃ v, t = .value v)) ∧
+        alGet externs (as_.getD n) = none ∧ register st (as_.getD n) (.ty t) = .ok st1 ∧
+        useType.go i itf st1 (alInsert uses (as_.getD n) { interface := i, name := as_.map fun _ => n })
+          (alInsert externs (as_.getD n) (.type t)) items = .ok (st', uses', externs') := by
+      split at h
+      · cases h
+      · rename_i kind hk
+        split at h
+        · rename_i t
+          split at h
+          · rename_i r
+            split at h
+            · cases h
+            · rename_i hfr
+              split at h
+              · rename_i st1 hreg
+                exact ⟨_, st1, hk, Or.inl ⟨_, rfl⟩, by simpa using hfr, hreg, h⟩
+              · cases h
+          · rename_i v
+            split at h
+            · cases h
+            · rename_i hfr
+              split at h
+              · rename_i st1 hreg
+                exact ⟨_, st1, hk, Or.inr ⟨_, rfl⟩, by simpa using hfr, hreg, h⟩
+              · cases h
+          · cases h
+        · cases h
+    obtain ⟨t, st1, hk, hshape, hfrE, hreg, hrest⟩ := step
+    obtain ⟨hfrS, rfl⟩ := register_ok hreg
+    obtain ⟨ht2, hr2, k2⟩ := ih _ _ _ _ _ _ hrest
+    refine ⟨ht2, hr2, ?_⟩
+    intro ex sc o res accI hex hsim hexp hfold
+    simp only [List.foldlM_cons, Option.bind_eq_bind] at hfold
+    obtain ⟨acc1, h1, h2⟩ := Option.bind_eq_some_iff.mp hfold
+    have hins : alInsert externs (as_.getD n) (.type t) = externs ++ [(as_.getD n, .type t)] :=
+      alInsert_fresh _ _ _ (alGet_none_not_mem _ _ hfrE)
+    rcases hex.get n with ⟨hnone, _⟩ | ⟨k, tt, hgk, hgt, hkk, hrk⟩
+    · rw [hk] at hnone; cases hnone
+    · rw [hk] at hgk
+      cases hgk
+      rcases hshape with ⟨rid, rfl⟩ | ⟨v, rfl⟩
+      · -- a used resource: the same resource
+        obtain ⟨q, rfl, hq⟩ := hrk rid rfl
+        rw [useStep_res hgt] at h1
+        cases h1
+        have hsim1 := hsim.push (n := as_.getD n) (b := .ty (.resource rid)) (bd := .res q) hfrS hq
+        have hexp1 : ExpRel ρ st.types (externs ++ [(as_.getD n, .type (.resource rid))])
+            (accI ++ (o ++ [(as_.getD n, .type (.resource q))])) := by
+          rw [← List.append_assoc]
+          exact All2.append hexp ⟨rfl, hkk, hrk⟩
+        have := k2 ex _ _ res accI hex hsim1 (by rw [hins]; exact hexp1) h2
+        exact this
+      · -- a used value type: the same type
+        obtain ⟨t', rfl, hnr, hv⟩ := HV_of_HK_type hkk
+        rw [useStep_val hnr hgt] at h1
+        cases h1
+        have hsim1 := hsim.push (n := as_.getD n) (b := .ty (.value v)) (bd := .val t') hfrS hv
+        have hexp1 : ExpRel ρ st.types (externs ++ [(as_.getD n, .type (.value v))])
+            (accI ++ (o ++ [(as_.getD n, .type t')])) := by
+          rw [← List.append_assoc]
+          exact All2.append hexp ⟨rfl, hkk, hrk⟩
+        have := k2 ex _ _ res accI hex hsim1 (by rw [hins]; exact hexp1) h2
+        exact this
+
+/-- **`use` preserves identity**: the used names are bound and exported as the very items of the
+source interface, so they denote the same types and the same resources. -/
+theorem useType_ok {st st' : St} {path : Str} {items : List (Str × Option Str)}
+    {uses uses' : List (Str × UsedType)} {externs externs' : List (Str × ItemKind)}
+    (h : useType st path items uses externs = .ok (st', uses', externs')) :
+    st'.types = st.types ∧ st'.root = st.root ∧
+    ∀ (container : Str) (ifaces : List (Str × List (Str × Tree))) (s s' : Scope) (out acc : List (Str × Tree)),
+      RootSim ρ st.types st.root ifaces → Sim ρ st.types st.scope s.binds → ExpRel ρ st.types externs acc →
+      denoteItem container ifaces s (.use path items) = some (s', out) →
+      Sim ρ st'.types st'.scope s'.binds ∧ ExpRel ρ st'.types externs' (acc ++ out) ∧ s'.next = s.next := by
+  unfold useType at h
+  split at h
+  · rename_i i hroot
+    split at h
+    · cases h
+    · rename_i itf hitf
+      obtain ⟨ht, hr, k⟩ := useGo_ok (ρ := ρ) i itf _ _ _ _ _ _ _ h
+      refine ⟨ht, hr, ?_⟩
+      intro container ifaces s s' out acc hrs hsim hexp hden
+      obtain ⟨itf', ex, hitf', hex, hrel⟩ := hrs path i hroot
+      rw [hitf] at hitf'; cases hitf'
+      simp only [denoteItem, hex] at hden
+      have hden' : items.foldlM (useStep ex) (s, []) = some (s', out) := hden
+      exact k ex s [] (s', out) acc hrel hsim (by simpa using hexp) hden'
+  · cases h
+  · cases h
+
+end Wac.Elab
